@@ -94,3 +94,12 @@ def d12_call_does_not_restore_pointer_on_raise():
     except BaseException:
         return False
     return list(stack.deque) == [b'\xbb', b'\xaa', b'\xcc']
+
+
+def d14_before_lock_negates_slack():
+    """make_timestamp_before_lock(ts) accepts t >= ts when t is ahead of the clock by >= ts_threshold"""
+    import time
+    ts = _ts()
+    now = int(time.time())
+    lock = ts.make_timestamp_before_lock(now - 1000)
+    return ts.run_auth_scripts([lock], {'timestamp': now + 500}) is True
